@@ -307,6 +307,7 @@ def run_property(pid, tier, seed):
     evaluations = 0
     nontrivial = 0
     distinct = set()
+    distinct_counted = 0
     samples = []
     observed = {}
     violations = []
@@ -347,6 +348,7 @@ def run_property(pid, tier, seed):
         pp["nontrivial"] += res["nontrivial"]
         for h in (res.get("distinct") or []):
             distinct.add(r["part"] + ":" + h)
+        distinct_counted += res.get("distinct_counted") or 0
         for s in (res.get("samples") or [])[:2]:
             if len(samples) < 8:
                 samples.append({"part": r["part"], "case": s})
@@ -417,7 +419,7 @@ def run_property(pid, tier, seed):
     level = spec["level"]
     coverage = {
         "evaluations": int(evaluations),
-        "distinct_nontrivial": len(distinct),
+        "distinct_nontrivial": len(distinct) + distinct_counted,
         "nontrivial_evaluations": int(nontrivial),
         "rule": spec.get("rule", "") + (" | " + " | ".join(rules) if rules else ""),
         "samples": samples if samples else [],
@@ -448,7 +450,7 @@ def run_property(pid, tier, seed):
         fh.write("\n")
 
     print("property=%s tier=%s seed=%s evaluations=%d distinct_nontrivial=%d wall=%.1fs" %
-          (pid, tier, seed, evaluations, len(distinct), wall))
+          (pid, tier, seed, evaluations, len(distinct) + distinct_counted, wall))
     for k in sorted(known_hit):
         print("KNOWN-FINDING: property=%s %s" % (pid, known_hit[k]["text"]))
     if new_viol:
